@@ -500,6 +500,15 @@ class World:
                 c = self.compare(recv, args[0])
                 return S("Some", ORD[{-1: "Less", 0: "Equal", 1: "Greater"}[c]])
             if m == "into" and not args:
+                # `x.into()`: the one `From<type of x>` impl of the files read, if there is exactly one
+                cands = []
+                for (ty2, mn), (f2, _ff) in self.methods.items():
+                    if mn == "from" and ty2 != ty:
+                        ins_ = [i_ for i_ in f2["sig"]["inputs"] if not i_.get("self")]
+                        if len(ins_) == 1 and str(ins_[0].get("ty", "")).replace(" ", "").replace("&", "") in (ty, "Self::" + str(ty)):
+                            cands.append(f2)
+                if len(cands) == 1:
+                    return self.call_fn(cands[0], [recv])
                 raise Unsupported("into")
             raise Unsupported("method %s on %s" % (m, ty))
         if k == "Closure":
